@@ -2058,4 +2058,4 @@ def run(ctx):
     ctx.explore('tofile', TOFILE, _skipping(ctx, case_tofile, confirmed),
                 ctx.n(280, 1000), max_rounds=30, shrink=shrink)
     # coverage-guided campaign over the same strategy / oracle
-    ctx.fuzz('graph', ctx.n(250, 4000), max_len=8192)
+    ctx.fuzz('graph', ctx.n(250, 1000), max_len=8192)
